@@ -23,7 +23,7 @@ PROPS = {
     "C03": {
         "level": "proof",
         "manifest_level": "other",
-        "static": [static.memo_args],
+        "static": [static.memo_args, static.core_state, static.process_state],
         "trusted": ["conversions._plan_conversion: assumed contract, see C04 (convert's own dimension gate, asked unit and Decimal preservation are verified)"],
         "explanation": "Deductive proof of every obligation except one recorded finding (Quantity.__rtruediv__/post:dimension-inverse, pinned by the test "
                        "suite), hence level 'other' rather than 'proof'. Contracts on _add.._div (Decimal lattice), Quantity * / ** unary + - (dimension homomorphism through the C01 invariant, Decimal "
@@ -45,7 +45,7 @@ PROPS = {
     },
     "C04": {
         "level": "proof", "manifest_level": "other",
-        "static": [static.lean_affine],
+        "static": [static.lean_affine, static.memo_results],
         "trusted": ["conversions._plan_conversion and the heuristic planner helpers behind it (_replace_factors, _match_factors, _cancel_factors, _splat, _find_path, "
                     "_find_path_recursive, _inline_paths): NOT verified; their contract (contracts/c_conversions.PlanConversion: the plan is well formed, and for "
                     "offset-free units applying it multiplies by size(start)/size(end)) is ASSUMED and is what the bounded stand-in tests",
@@ -59,7 +59,7 @@ PROPS = {
     },
     "C05": {
         "level": "proof", "manifest_level": "other",
-        "static": [static.lean_affine],
+        "static": [static.lean_affine, static.memo_results],
         "trusted": ["conversions._plan_conversion and the planner behind it: assumed contract (see C04), bounded stand-in only",
                     "magnitudes are real numbers in the proof (A4); the float tolerances of the statement are bounded only"],
         "explanation": "Lemma functions (contracts/lemma_src.py conv_linear, conv_zero_and_sign, conv_identity, conv_round_trip, conv_route_independent) are proved against the "
@@ -70,7 +70,7 @@ PROPS = {
     },
     "C06": {
         "level": "proof",
-        "static": [static.lean_affine],
+        "static": [static.lean_affine, static.memo_results, static.core_state, static.process_state],
         "trusted": ["conversions._plan_conversion: assumed contract (well-formed plan; coefficient size(src)/size(dst) for offset-free units; raises ConversionNotFound "
                     "exactly when the ghost predicate noconv holds); convert itself is verified relative to it; the bounded stand-in shows where the planner fails (recorded findings)",
                     "a*b, a/b, a**n: unit-independence of the physical value is bounded only (size multiplicativity is not axiomatised)"],
@@ -86,7 +86,7 @@ PROPS = {
     },
     "C08": {
         "level": "proof",
-        "static": [static.c08_memo, static.c08_state, static.memo_args, static.core_state],
+        "static": [static.c08_memo, static.c08_state, static.memo_args, static.core_state, static.process_state, static.memo_results],
         "trusted": ["functools.lru_cache semantics (A10)", "dict insertion order of unit.factors may influence the planner (history dependence through factor order): bounded only"],
         "explanation": "Frame/memoisation obligations decided on the AST (only equate/translate write the tables; both invalidate every memoised function after their last "
                        "write; other memoised functions do not read the tables; no identity/time/randomness in the planner) + the contracts of equate/translate prove "
@@ -100,7 +100,7 @@ PROPS = {
     },
     "C10": {
         "level": "proof", "manifest_level": "other",
-        "static": [static.lean_affine],
+        "static": [static.lean_affine, static.memo_results, static.process_state],
         "trusted": ["_plan_conversion / _find_path_recursive (which hops a path holds, and the offsets they carry): bounded (exhaustive over scale pairs x single prefixes) only"],
         "explanation": "translate is proved to install ratio 1 and offsets -/+ zero; convert is proved to apply every hop of every plan entry as multiply-by-scale**exponent-then-add-"
                        "offset in order (loop invariants over the fold APk/APLk, unfolding equations in lemmas/Affine.lean); which hops the planner returns for the 12 ordered scale "
@@ -108,6 +108,7 @@ PROPS = {
     },
     "C12": {
         "level": "proof",
+        "static": [static.memo_args, static.core_state, static.process_state],
         "trusted": ["conversions._plan_conversion (assumed contract, as in C04/C06)", "functools.total_ordering (A10): modelled as <= is (< or ==), > is (not < and !=), >= is (not <)",
                     "Measurement / Level / approximately comparisons: bounded stand-in only (the interval comparison exceeds the solver budget)"],
         "explanation": "Lemma functions over the contracts of Quantity.__eq__/__lt__: reflexive, symmetric, trichotomy, <=/>= mirror (each assert an obligation). "
@@ -115,13 +116,14 @@ PROPS = {
     },
     "C14": {
         "level": "proof",
+        "static": [static.memo_args, static.core_state, static.process_state],
         "trusted": ["math.sqrt and ** over the reals (A4)", "+ and - of measurements: bounded stand-in only (the chain through four Quantity contracts exceeds the budget)"],
         "explanation": "Measurement(...) takes |uncertainty|; * / and ** are proved against sigma_f^2 = sum((df/dx_i sigma_i)^2) written out per operator (non-linear real "
                        "arithmetic), for measurement or plain quantity on the right, including zero measurands and every integer exponent.",
     },
     "C18": {
         "level": "proof",
-        "static": [static.memo_args, static.core_state],
+        "static": [static.memo_args, static.core_state, static.process_state],
         "trusted": ["math.log / ** over the reals with the axioms: log strictly increasing, log x > 0 for x > 1, b**0 = 1, b**e > 0 for b > 0 (A4)",
                     "conversions._plan_conversion (assumed contract, as in C04/C06)", "round trips level<->quantity and Level.__eq__: bounded stand-in only (needs exp/log inverse reasoning)",
                     "LogarithmicUnit construction (interning keyed by (logarithm, reference)): not under contract"],
@@ -130,7 +132,7 @@ PROPS = {
     },
     "C13": {
         "level": "other", "manifest_level": "other",
-        "static": [static.memo_args, static.core_state, static.registry_memo],
+        "static": [static.memo_args, static.core_state, static.process_state, static.registry_memo],
         "trusted": ["the generated LALR parser builds the tree the grammar assigns to the text (A10)"],
         "explanation": "Ground evaluation over the finite registry (every unit x every registered prefix, exponents, products, quantities, alternative spellings) of "
                        "the real str()/parse() pair; no contract is proved (string construction by generator expressions over characters and the LALR driver are "
@@ -138,7 +140,7 @@ PROPS = {
     },
     "C15": {
         "level": "other", "manifest_level": "other",
-        "static": [static.memo_args, static.core_state],
+        "static": [static.memo_args, static.core_state, static.process_state],
         "trusted": ["pickle/copy call cls.__new__(cls, *args, **kwargs) with __getnewargs_ex__ and restore slots (A10)", "json applies object_hook bottom-up (A10)"],
         "explanation": "Re-entry of __getnewargs_ex__/__from_json__ into the interning constructors is covered by the constructor contracts of C01/C02 (same key => same "
                        "object); the round trips themselves are checked natively over every registered dimension, prefix and unit and random compounds/quantities x 4 codecs. "
@@ -146,7 +148,7 @@ PROPS = {
     },
     "C17": {
         "level": "other", "manifest_level": "other",
-        "static": [static.memo_args, static.core_state, static.registry_writers, static.registry_memo],
+        "static": [static.memo_args, static.core_state, static.process_state, static.registry_writers, static.registry_memo],
         "trusted": ["the generated LALR driver raises only LarkError subclasses (A10)"],
         "explanation": "Frame part by contract: Unit.alias(None, None) and the constructor contracts show that building anonymous units never writes the name/symbol "
                        "registries; totality, determinism and registry snapshots are checked natively over edge inputs (5000-digit numbers, NUL, unicode digits, 100k characters), "
@@ -154,7 +156,7 @@ PROPS = {
     },
     "C20": {
         "level": "proof", "manifest_level": "other",
-        "static": [static.c20_locks, static.memo_args, static.core_state],
+        "static": [static.c20_locks, static.memo_args, static.core_state, static.process_state],
         "trusted": ["threading.RLock provides mutual exclusion; dict and lru_cache operations are atomic enough under the GIL (A10)",
                     "double initialisation of one fresh object by two threads writes identical values (outside the statement)"],
         "explanation": "Lock discipline (static, closed obligations): in each interning __new__ the registry test, the allocation and the insertion lie in one critical section "
